@@ -49,6 +49,8 @@ def _row_of_own_mailbox(model, p, term):
 
 def run(ctx):
     model = ctx.model
+    from .. import roles as _roles
+    R = _roles.get(model)
     ctx.rule("R08.guard", "close deletes only when, after marking this side closed "
              "(keyed mailbox id AND side), no side row of the mailbox is open")
     ctx.rule("R08.codel", "the retirement is one transaction deleting claims of its "
@@ -66,7 +68,7 @@ def run(ctx):
         upd = None
         sel_after = {}
         for e, loops in all_events(p):
-            if e["k"] != "sql" or e["db"] != "chan" or "Mailbox.close" not in e["stack"]:
+            if e["k"] != "sql" or e["db"] != "chan" or R.close_op not in e["stack"]:
                 continue
             st = e["stmt"]
             if st.table == "mailbox_sides" and st.kind == "update":
@@ -115,7 +117,7 @@ def run(ctx):
                 if x["stmt"].kind != "delete":
                     continue
                 tables.add(x["stmt"].table)
-                if "Mailbox.close" in e["stack"] and "Mailbox.close" in x["stack"] and \
+                if R.close_op in e["stack"] and R.close_op in x["stack"] and \
                         x["stmt"].table in ("nameplates", "messages", "mailbox_sides"):
                     eq = x["src"]["where_eq"]
                     okk = eq is not None and set(eq) <= {"mailbox_id", "app_id"} and \
@@ -129,14 +131,14 @@ def run(ctx):
                                x["stmt"].table,
                                x["stmt"].where.render() if x["stmt"].where else "no WHERE"))
             tables.add("mailboxes")
-            owner = "Mailbox.close" if "Mailbox.close" in e["stack"] else e["func"]
+            owner = R.close_op if R.close_op in e["stack"] else e["func"]
             sets[owner] = tables
             missing = [t for t in RETIRE_TABLES if t not in tables]
             ctx.ob("R08.codel", "%s: one transaction deletes %s" % (
                 owner, ",".join(RETIRE_TABLES)), not missing, e,
                 "" if not missing else "the transaction that deletes the mailbox row does "
                 "not delete from %s" % missing, render_path(p.events) if missing else None)
-    if "Mailbox.close" not in sets:
+    if R.close_op not in sets:
         raise AnalysisError("R08.codel: no mailbox deletion found in Mailbox.close")
     if len(sets) >= 2:
         vals = list(sets.items())
@@ -150,7 +152,7 @@ def run(ctx):
                    % (sorted(a), sorted(b)))
     e3 = e3mod.get(model)
     for f in e3.by_kind("fk_delete") + e3.by_kind("child_delete"):
-        if "Mailbox.close" in f.event["stack"]:
+        if R.close_op in f.event["stack"]:
             ctx.ob("R08.codel", f.construct, f.ok, f.site, f.detail,
                    render_path(f.path.events) if (f.path and not f.ok) else None)
     # R08.answer
@@ -163,7 +165,7 @@ def run(ctx):
         sent = [frame_type(e) for e, _ in all_events(p, ("send",))]
         ok = p.outcome.kind == "return" and sent.count("closed") == 1 and \
             sent[-1] == "closed"
-        closes = [e for e, _ in all_events(p, ("call",)) if e["callee"] == "Mailbox.close"]
+        closes = [e for e, _ in all_events(p, ("call",)) if e["callee"] == R.close_op]
         okc = bool(closes)
         ctx.ob("R08.answer", "%s: `closed` only after the close operation ran" % h, okc,
                p.events[-1], "" if okc else "a close that passes validation is answered "
@@ -172,7 +174,7 @@ def run(ctx):
         if ok and closes:
             evs_all = [e for e, _ in all_events(p)]
             rets = [i for i, e in enumerate(evs_all)
-                    if e["k"] == "ret" and e["callee"] == "Mailbox.close"]
+                    if e["k"] == "ret" and e["callee"] == R.close_op]
             snd = [i for i, e in enumerate(evs_all)
                    if e["k"] == "send" and frame_type(e) == "closed"]
             if not rets or not snd or snd[0] < rets[-1]:
@@ -204,10 +206,10 @@ def run(ctx):
             if t[0] == "obj" and t[1] == "Mailbox" and isinstance(t[2], tuple) and \
                     t[2][0] == "held":
                 held = v
-        closes = [e for e, _ in all_events(p, ("call",)) if e["callee"] == "Mailbox.close"]
+        closes = [e for e, _ in all_events(p, ("call",)) if e["callee"] == R.close_op]
         if held is False and closes:
             nr += 1
-            opened = any(e["callee"] == "AppNamespace.open_mailbox"
+            opened = any(e["callee"] == R.open_op
                          for e, _ in all_events(p, ("call",)))
             recv = closes[0]["self_term"]
             ok = opened and recv[0] == "obj" and not (isinstance(recv[2], tuple) and
